@@ -292,6 +292,129 @@ pub fn check_case(c: &Case, ctx: &mut Ctx) -> CheckResult {
             );
         }
     }
+    // every accessor, for records taken from next() and from record sets: identical between the renderings
+    {
+        fn enc_opt(o: Option<&[u8]>) -> Vec<u8> {
+            match o {
+                None => b"<none>".to_vec(),
+                Some(x) => [b"some:", x].concat(),
+            }
+        }
+        fn enc_res(r: Result<&str, std::str::Utf8Error>) -> Vec<u8> {
+            match r {
+                Ok(x) => [b"ok:", x.as_bytes()].concat(),
+                Err(_) => b"<utf8-error>".to_vec(),
+            }
+        }
+        macro_rules! header_views {
+            ($r:expr) => {{
+                let r = $r;
+                let (i2, d2) = r.id_desc_bytes();
+                let idd = match r.id_desc() {
+                    Ok((i, d)) => [b"ok:", i.as_bytes(), b"|", &enc_opt(d.map(|x| x.as_bytes()))[..]].concat(),
+                    Err(_) => b"<utf8-error>".to_vec(),
+                };
+                vec![
+                    r.head().to_vec(),
+                    r.id_bytes().to_vec(),
+                    enc_opt(r.desc_bytes()),
+                    enc_res(r.id()),
+                    match r.desc() {
+                        None => b"<none>".to_vec(),
+                        Some(x) => enc_res(x),
+                    },
+                    i2.to_vec(),
+                    enc_opt(d2),
+                    idd,
+                ]
+            }};
+        }
+        let fa_views = |r: &seq_io::fasta::RefRecord| -> Vec<Vec<u8>> {
+            use seq_io::fasta::Record;
+            let mut v = header_views!(r);
+            v.push(r.seq_lines().collect::<Vec<_>>().join(&b'|'));
+            v.push(r.seq_lines().fold(Vec::new(), |mut a: Vec<u8>, l| {
+                a.extend_from_slice(l);
+                a.push(b'|');
+                a
+            }));
+            v.push(r.seq_lines().rev().collect::<Vec<_>>().join(&b'|'));
+            v.push(r.full_seq().to_vec());
+            v.push(r.owned_seq());
+            let o = r.to_owned_record();
+            v.extend(header_views!(&o));
+            v.push(o.seq().to_vec());
+            v.push(r.num_seq_lines().to_string().into_bytes());
+            v
+        };
+        let fq_views = |r: &seq_io::fastq::RefRecord| -> Vec<Vec<u8>> {
+            use seq_io::fastq::Record;
+            let mut v = header_views!(r);
+            v.push(r.seq().to_vec());
+            v.push(r.qual().to_vec());
+            let o = r.to_owned_record();
+            v.extend(header_views!(&o));
+            v.push(o.seq().to_vec());
+            v.push(o.qual().to_vec());
+            v
+        };
+        let all = |text: &[u8], cap: usize, via_sets: bool| -> Vec<Vec<Vec<u8>>> {
+            let mut out = Vec::new();
+            match (c.format, via_sets) {
+                (Format::Fasta, false) => {
+                    let mut rdr = seq_io::fasta::Reader::with_capacity(text, cap);
+                    while let Some(Ok(r)) = rdr.next() {
+                        out.push(fa_views(&r));
+                    }
+                }
+                (Format::Fasta, true) => {
+                    let mut rdr = seq_io::fasta::Reader::with_capacity(text, cap);
+                    let mut set = seq_io::fasta::RecordSet::default();
+                    while let Some(Ok(())) = rdr.read_record_set(&mut set) {
+                        for r in &set {
+                            out.push(fa_views(&r));
+                        }
+                    }
+                }
+                (Format::Fastq, false) => {
+                    let mut rdr = seq_io::fastq::Reader::with_capacity(text, cap);
+                    while let Some(Ok(r)) = rdr.next() {
+                        out.push(fq_views(&r));
+                    }
+                }
+                (Format::Fastq, true) => {
+                    let mut rdr = seq_io::fastq::Reader::with_capacity(text, cap);
+                    let mut set = seq_io::fastq::RecordSet::default();
+                    while let Some(Ok(())) = rdr.read_record_set(&mut set) {
+                        for r in &set {
+                            out.push(fq_views(&r));
+                        }
+                    }
+                }
+            }
+            out
+        };
+        for via_sets in [false, true] {
+            let va = all(&lf, c.cap_a, via_sets);
+            let vb = all(&other, c.cap_b, via_sets);
+            if va != vb {
+                let i = (0..va.len().max(vb.len())).find(|&i| va.get(i) != vb.get(i)).unwrap();
+                let j = match (va.get(i), vb.get(i)) {
+                    (Some(a), Some(b)) => (0..a.len().max(b.len())).find(|&j| a.get(j) != b.get(j)).unwrap_or(0),
+                    _ => 0,
+                };
+                fail!(
+                    format!("{}/lf-vs-crlf/accessor-differs", f),
+                    "record {} ({}), accessor #{}: LF version {:?}, other version {:?}",
+                    i,
+                    if via_sets { "from a record set" } else { "from next()" },
+                    j,
+                    va.get(i).and_then(|a| a.get(j)).map(|x| B(x.clone())),
+                    vb.get(i).and_then(|a| a.get(j)).map(|x| B(x.clone()))
+                );
+            }
+        }
+    }
     for o in rb.outs.iter() {
         if let Out::Rec(r) = o {
             let cr = r.head.contains(&b'\r') || r.lines.iter().any(|l| l.contains(&b'\r')) || r.qual.as_ref().map_or(false, |q| q.contains(&b'\r'));
@@ -301,7 +424,7 @@ pub fn check_case(c: &Case, ctx: &mut Ctx) -> CheckResult {
     Ok(())
 }
 
-pub const RULE: &str = "cases = well-formed structure (FASTA: 0..3 leading blank lines, 0..5 records, header-only records, blank lines inside records, 0..2 trailing blank lines; FASTQ: 0..5 valid records whose separator line is a bare '+', '+' with text or '+' with the repeated header, 0..2 trailing blank lines; fields free of CR/LF) rendered twice: all-LF and {all-CRLF | FASTA: per-line mixture}, with/without final terminator, read with two generated capacities (B also with a chunk script) in next / record-set / records() mode. Oracle: identical outcomes (records, terminal), identical line numbers, identical whole-sequence views (full_seq, owned_seq, owned record), no CR in any field, and both equal the structure they were rendered from (so no error appears or disappears). Exhaustive sub-check over tiny structures x capacities 3..10. Non-trivial = >= 1 record and the two renderings differ. Distinct = hash(case).";
+pub const RULE: &str = "(every accessor - head, id / desc as bytes and text, id_desc, sequence lines by next(), by fold() and reversed, full_seq, owned_seq, owned record views, seq, qual - of every record from next() and from record sets is compared between the two renderings as well) cases = well-formed structure (FASTA: 0..3 leading blank lines, 0..5 records, header-only records, blank lines inside records, 0..2 trailing blank lines; FASTQ: 0..5 valid records whose separator line is a bare '+', '+' with text or '+' with the repeated header, 0..2 trailing blank lines; fields free of CR/LF) rendered twice: all-LF and {all-CRLF | FASTA: per-line mixture}, with/without final terminator, read with two generated capacities (B also with a chunk script) in next / record-set / records() mode. Oracle: identical outcomes (records, terminal), identical line numbers, identical whole-sequence views (full_seq, owned_seq, owned record), no CR in any field, and both equal the structure they were rendered from (so no error appears or disappears). Exhaustive sub-check over tiny structures x capacities 3..10. Non-trivial = >= 1 record and the two renderings differ. Distinct = hash(case).";
 
 pub fn run(tier: Tier) -> i32 {
     let mut run = Run::new("C12", tier, "exploration");
